@@ -83,6 +83,13 @@ Theorem C12_stop_silences : forall l s ev, run init l = Some (s, ev) -> silent_o
 Proof. exact trace_silent. Qed.
 Print Assumptions C12_stop_silences.
 
+(* ---- NAMING: the theorems below that end in `_partial` hold for `admissible` histories / `reachable` states only, i.e. under
+        `contract`, whose clauses (Idle, destroy_ok, release_ok, loop_outlives_cleanup, no foreign destruction) are the negations of
+        the recorded findings F-10/F-16/F-17, F-18, F-24, F-28, F-13: the faithful model falsifies the property text without them
+        (the `_refuted` theorems at the end).  The satellite and progress theorems quantified over `reachable` / `admissible`
+        (C12_loop_end_no_leak, C12_destroy_then_loop_end_safe, C12_drained_loop_outlives_cleanup, C12_failed_attempt_*,
+        C12_timer_fires_attempt*, C12_success_reports_up, C12_exactly_one_up, C12_retry_chain) are partial in the same sense; their
+        statements show the hypothesis. *)
 (* ---- histories under the hypothesis the property states, made precise (C12_Model.contract):
         connect() only when Idle (state kDisconnected, no channel, no connection, no other connect() in flight,
         no retry timer pending, delay at its initial value); timers `timely`;
@@ -100,31 +107,40 @@ Theorem C12_contract_loop_end_clause : forall s,
 Proof. exact (fun s => conj eq_refl (loop_outlives_spec s)). Qed.
 Print Assumptions C12_contract_loop_end_clause.
 
+(* on reachable states on which LoopEnd is not Rejected the hypothesis is EXACTLY "LoopEnd does not fault" (REVIEW_F F-5): for this op
+   the clause is the negation of the fault condition, and C12_destroy_safe_on_loop_partial / C12_step_safe_partial say nothing about
+   LoopEnd beyond it.  The content is: C12_drained_loop_outlives_cleanup (when it holds), C12_loop_end_no_leak (what it gives),
+   C12_destroy_then_loop_end_safe (which clients may be destroyed together with their loop) *)
+Theorem C12_loop_outlives_cleanup_exact : forall s, reachable s -> step_core s LoopEnd <> None ->
+  (loop_outlives_cleanup s = true <-> step s LoopEnd <> Fault).
+Proof. exact loop_outlives_exact. Qed.
+Print Assumptions C12_loop_outlives_cleanup_exact.
+
 (* destroy_safe_on_loop / crash freedom: no step of an admissible history is a Fault, i.e. no assert of
    Connector / TcpClient / TcpConnection / Channel fails and nothing is called through a pointer to a destroyed
    Connector, TcpClient (newConnection, removeConnection) or TcpConnection (shutdownInLoop).
    `admissible` includes loop_outlives_cleanup at every LoopEnd (C12_contract_loop_end_clause); that this hypothesis cannot
    be dropped: C12_loop_outlives_cleanup_refuted, C12_destroy_then_loop_end_refuted *)
-Theorem C12_destroy_safe_on_loop : forall l, admissible init l -> run init l <> None.
+Theorem C12_destroy_safe_on_loop_partial : forall l, admissible init l -> run init l <> None.
 Proof. exact no_fault. Qed.
-Print Assumptions C12_destroy_safe_on_loop.
+Print Assumptions C12_destroy_safe_on_loop_partial.
 
-Theorem C12_step_safe : forall s o, reachable s -> contract s o = true -> step s o <> Fault.
+Theorem C12_step_safe_partial : forall s o, reachable s -> contract s o = true -> step s o <> Fault.
 Proof. exact step_safe. Qed.
-Print Assumptions C12_step_safe.
+Print Assumptions C12_step_safe_partial.
 
 (* ... and leaves nothing behind: once the functor queue and the timer queue have drained and the user holds no
    connection, the Connector is gone, every connection object is destroyed and has closed its descriptor, and EVERY socket
    ever created has been closed exactly once (by the connector, or by the connection it was handed to) *)
-Theorem C12_destroy_no_leak : forall s, reachable s ->
+Theorem C12_destroy_no_leak_partial : forall s, reachable s ->
   alive s = false -> pending s = [] -> timers s = [] -> (forall c o, nth_error (conns s) c = Some o -> cuser o = 0%nat) ->
   k_dead s = true /\ k_chan s = None /\ connection s = None /\
   (forall c o, nth_error (conns s) c = Some o -> calive o = false /\ nth_error (socks s) (csock o) = Some (HandedClosed 1)) /\
   (forall i x, nth_error (socks s) i = Some x -> x = Closed 1 \/ x = HandedClosed 1).
 Proof. exact destroyed_quiescent. Qed.
-Print Assumptions C12_destroy_no_leak.
+Print Assumptions C12_destroy_no_leak_partial.
 
-(* the hypotheses `pending s = []`, `timers s = []` of C12_destroy_no_leak say that the loop kept running until everything
+(* the hypotheses `pending s = []`, `timers s = []` of C12_destroy_no_leak_partial say that the loop kept running until everything
    ~TcpClient queued had run; they imply loop_outlives_cleanup, so the EventLoop may be destroyed then *)
 Theorem C12_drained_loop_outlives_cleanup : forall s, reachable s -> alive s = false -> drained s = true ->
   (forall c o, nth_error (conns s) c = Some o -> cuser o = 0%nat) -> loop_outlives_cleanup s = true.
@@ -157,19 +173,19 @@ Proof. exact destroy_then_loop_end_safe. Qed.
 Print Assumptions C12_destroy_then_loop_end_safe.
 
 (* back-off: every cycle starts at 500 ms and the k-th failed attempt of a cycle arms min(500 * 2^k, 30000) ms *)
-Theorem C12_backoff : forall l s ev, admissible init l -> run init l = Some (s, ev) -> backoff_ok 0 ev.
+Theorem C12_backoff_partial : forall l s ev, admissible init l -> run init l = Some (s, ev) -> backoff_ok 0 ev.
 Proof. exact backoff_admissible. Qed.
-Print Assumptions C12_backoff.
+Print Assumptions C12_backoff_partial.
 
 (* reconnect iff retry_ && connect_: when the client's connection goes down, restart() (new cycle at 500 ms, new
    attempt in the same step) exactly when both flags are set; otherwise the step reports DOWN and nothing else *)
-Theorem C12_retry_policy : forall s s' ev c o, reachable s ->
+Theorem C12_retry_policy_partial : forall s s' ev c o, reachable s ->
   find_down (conns s) 0 None = Some c -> nth_error (conns s) c = Some o -> ccb o = CbClient ->
   step s Down = Ok s' ev ->
   (c_retry s && c_connect s = true -> exists i e rest, ev = EvDown c :: EvWant :: EvCycle 500 :: EvAttempt i e :: rest) /\
   (c_retry s && c_connect s = false -> exists g, ev = EvDown c :: g /\ Forall is_connclose g).
 Proof. exact retry_policy. Qed.
-Print Assumptions C12_retry_policy.
+Print Assumptions C12_retry_policy_partial.
 
 (* disconnect() half-closes the current connection and touches nothing else (C03: shutdown()) *)
 Theorem C12_disconnect_graceful : forall s c o, user_api_ok s = true -> connection s = Some c ->
@@ -202,9 +218,9 @@ Theorem C12_live_loop_admissible : forall l s q, Inv s -> Tinv s q -> ladmissibl
 Proof. exact ladmissible_admissible. Qed.
 Print Assumptions C12_live_loop_admissible.
 
-Theorem C12_destroy_safe_live_loop : forall l, ladmissible 0 init l -> run init l <> None.
+Theorem C12_destroy_safe_live_loop_partial : forall l, ladmissible 0 init l -> run init l <> None.
 Proof. exact no_fault_live_loop. Qed.
-Print Assumptions C12_destroy_safe_live_loop.
+Print Assumptions C12_destroy_safe_live_loop_partial.
 
 Example C12_live_loop_examples :
   (ladmissible 0 init ex_backoff /\ ladmissible 0 init ex_retry_cycle /\ ladmissible 0 init ex_foreign) /\
